@@ -34,7 +34,7 @@ Chr(c, quote, st) ==
   LET short == CASE c = 10 -> <<92, 110>> [] c = 13 -> <<92, 114>> [] c = 9 -> <<92, 116>> [] c = 0 -> <<92, 48>>
                  [] c = 92 -> <<92, 92>> [] c = 34 -> <<92, 34>> [] c = 39 -> <<92, 39>> [] OTHER -> <<>>
       must  == c = 92 \/ c = quote                       \* cannot be written raw
-  IN CASE st.esc = "hex" /\ c < 128 -> <<92, 120>> \o Hex2(c)
+  IN CASE st.esc = "hex" /\ c < 256 -> <<92, 120>> \o Hex2(c)    \* \xNN is the character U+00NN, above 7F too
        [] st.esc = "uni" -> <<92, 117, 123>> \o Hex2(c) \o <<125>>
        [] st.esc = "short" /\ short # <<>> -> short
        [] must -> short
